@@ -31,14 +31,14 @@ from ..engine.cfg import own_parts
 from ..engine.report import AnalysisError, Run
 from ..engine.resolver import Program, body_walk
 from ..engine.util import canon, canon_total, find_calls, method_call, u
-from ._c06_util import Flow, indent_of, lifted, pruned, seg, spliced, stmt_patch, truth_atom
+from ._c06_util import Flow, HelperCalls, indent_of, lifted, pruned, seg, spliced, stmt_patch, truth_atom
 
 STEPS = "timeseries.formula_engine._formula_steps"
 MF = f"{STEPS}:MetricFetcher"
 FFM = "timeseries.formula_engine._formula_generators._fallback_formula_metric_fetcher"
 
 
-class SelInterp(Interp):
+class SelInterp(HelperCalls, Interp):
     def __init__(self, sync_params: list[str] | None = None) -> None:
         super().__init__()
         self.scn: dict[str, Any] = {}
@@ -115,9 +115,10 @@ class SelInterp(Interp):
 
 
 def check_sel(run: Run, prog: Program) -> None:
-    fn = spliced(prog, prog.func(f"{MF}.fetch_next_with_fallback"))
+    fn = prog.func(f"{MF}.fetch_next_with_fallback")
     run.analysed(fn.qual)
     it = SelInterp([p for p in prog.func(f"{MF}._synchronize_and_fetch_fallback").params if p != "self"])
+    it.bind_helpers(prog, fn, keep=("_synchronize_and_fetch_fallback", "_is_value_valid"))
 
     def make_args() -> dict[str, Any]:
         return {"self": Obj("self"), fn.params[1]: Obj("fallback")}
